@@ -275,7 +275,7 @@ def blockCheck (block : List Nat) (hash : Nat) : Bool :=
 /-- `Sbbf::hash_to_block_index`: `((hash >> 32).saturating_mul(len)) >> 32`
 (the product of two numbers `< 2^32`… `len ≤ 2^22` never saturates) -/
 def hashToBlockIndex (numBlocks : Nat) (hash : Nat) : Nat :=
-  ((hash % 2 ^ 64 >>> INDEX_HI_SHIFT) * numBlocks) >>> INDEX_LO_SHIFT
+  (((hash % 2 ^ 64) >>> INDEX_HI_SHIFT) * numBlocks) >>> INDEX_LO_SHIFT
 
 /-- `Sbbf::insert_hash` -/
 def sbbfInsert (blocks : List (List Nat)) (hash : Nat) : List (List Nat) :=
